@@ -17,8 +17,24 @@ of translations, the 48 signed permutations and Pythagorean rotations.
                     and on 3-, 5-, 7-, 13-scaled lattices for the Pythagorean rotations.
   3. trace validation  spec/SurfacesTrace.tla: TLC decides every record.
 
-Named deviation TranslatorSimpleQuadricConstTerm (F-SURF-1) is counted by the trace spec and
-reported through ctx.violation(tags={"deviation": ...}).
+  4. matrix / transform algebra   vsurf mat | tfx | sperm: orange/MatrixUtils (determinant, trace,
+                    gemm, gemv plain and transposed, make_transpose, make_rotation, orthonormalize) on
+                    integer / quarter-turn / Pythagorean inputs, apply_transform(transform, transform),
+                    calc_inverse / from_inverse, TransformSimplifier, Translation -> Transformation,
+                    SignedPermutation over all 216 sign/axis assignments and make_permutation: TLC
+                    computes every expected matrix / image itself (Surfaces.tla MatMul .. SPermValue,
+                    laws checked in SurfacesMC), records MDet .. SPermQ of SurfacesTrace.
+  5. involutes      transcendental, so "oracle-decided facts + spec-decided logic" (DESIGN 2.2):
+                    tools/involute_oracle.py gen -> harness/vinvolute.cc (the REAL Involute:
+                    calc_sense, calc_intersections off / on, calc_normal, SurfaceTranslator) ->
+                    tools/involute_oracle.py facts (independent implementation of the mathematical
+                    definition: sign changes of the signed normal distance along each ray by dense
+                    sampling + bisection, on-surface zones, sense of the documented region, numerical
+                    gradient) -> spec/InvoluteTrace.tla decides the clauses C12.Inv*.
+
+Named deviations are counted by the trace specs and reported through
+ctx.violation(tags={"deviation": ...}): TranslatorSimpleQuadricConstTerm (F-SURF-1, repaired),
+InvoluteSolverBracketParity, InvoluteSenseNegativeTangentAngle, InvoluteTranslatorClockwiseAngle.
 
 The small python quadric evaluator below is used for COVERAGE ACCOUNTING and for picking a
 readable sample of a deviation only -- never for a verdict (TLC alone accepts or rejects).
@@ -26,11 +42,30 @@ readable sample of a deviation only -- never for a verdict (TLC alone accepts or
 import json
 import os
 import re
+import subprocess
 import threading
 
 import vlib
 
 LEVEL = "exploration"
+VT_PY = "/opt/veriftools/pyvenv/bin/python"
+ORACLE = os.path.join(vlib.ROOT, "tools", "involute_oracle.py")
+
+INV_DEVIATIONS = {
+    "InvoluteSolverBracketParity":
+        "crossings of an involute are not reported by calc_intersections: detail::InvoluteSolver builds its search "
+        "brackets from beta = atan(-v/u) but the implemented root function has its extrema at atan(+v/u) - a + k pi, "
+        "so a bracket can hold an even number of roots and the sign test skips them (scoped: an isolated crossing is "
+        "unreported AND the oracle's reproduction of the documented bracket sequence puts it in such a bracket)",
+    "InvoluteSenseNegativeTangentAngle":
+        "Involute::calc_sense reports 'outside' for points inside a clockwise involute constructed with displacement "
+        "a > pi (stored pi - a < 0): the tangent-angle unwrapping only adds multiples of 2 pi (scoped: clockwise, oracle "
+        "inside, code outside, the tangent angle of the turn that makes the point inside is negative)",
+    "InvoluteTranslatorClockwiseAngle":
+        "SurfaceTranslator passes the STORED displacement angle of a clockwise involute to the constructor, which "
+        "mirrors it again: the translated surface stores pi - (stored angle) (scoped: clockwise, stored angle swapped, "
+        "every sense of the translated surface agrees with the oracle's involute of the mirrored angle)",
+}
 
 TYPES = ["px", "py", "pz", "cxc", "cyc", "czc", "sc", "cx", "cy", "cz", "p", "s", "kx", "ky", "kz", "sq", "gq"]
 
@@ -104,6 +139,10 @@ class Coverage:
         self.flips = 0
         self.out_types = {}
         self.devs = []
+        self.comp_classes = {}
+        self.simp_classes = {}
+        self.sperm_ok = 0
+        self.sperm_rejected = 0
 
     def add(self, kind, tup, nontrivial, stype=None):
         self.kind[kind] = self.kind.get(kind, 0) + 1
@@ -126,6 +165,9 @@ class Coverage:
 
     def record(self, r):
         e = r["e"]
+        if e[0] == "M" or e in ("TfComp", "TfInv", "TfSimp", "TfTol", "SPerm", "SPermQ"):
+            self.algebra(r)
+            return
         if e == "Tf":
             T = r["T"]
             tt = (r["cls"], json.dumps(T["R"]), T["den"], tuple(T["t"]))
@@ -182,6 +224,39 @@ class Coverage:
                 self.add("simplify", st + (tuple(pt["p"]),), pt["sn"] != 0 and changed, s["t"])
 
 
+    def algebra(self, r):
+        """Matrix / transform-algebra / signed-permutation records: distinct inputs per kind."""
+        e = r["e"]
+        self.kind[e] = self.kind.get(e, 0) + 1
+        key = json.dumps({k: v for k, v in r.items() if k in ("ty", "n", "A", "B", "v", "y", "al", "be", "ax", "q", "O",
+                                                                "m", "R", "L", "M", "T", "via", "op", "k")},
+                         sort_keys=True)
+        h = hash((e, key))
+        self.distinct.add(h)
+        trivial = False
+        if e in ("MDet", "MMul", "MVec", "MTr"):
+            trivial = r["A"] == [[1, 0, 0], [0, 1, 0], [0, 0, 1]]
+        elif e == "MRot":
+            trivial = r["q"] % 4 == 0 and "O" not in r
+        elif e in ("MRotAx", "SPermQ"):
+            trivial = r["q"] % 4 == 0
+        elif e == "TfComp":
+            trivial = r["L"]["cls"] == "No" or r["R"]["cls"] == "No"
+            self.comp_classes[r["L"]["cls"] + " o " + r["R"]["cls"] + " -> " + r["out"]] = \
+                self.comp_classes.get(r["L"]["cls"] + " o " + r["R"]["cls"] + " -> " + r["out"], 0) + 1
+        elif e == "TfSimp":
+            self.simp_classes[r["op"] + " " + r["T"]["cls"] + " -> " + r["out"]] = \
+                self.simp_classes.get(r["op"] + " " + r["T"]["cls"] + " -> " + r["out"], 0) + 1
+        elif e == "TfTol":
+            self.simp_classes["k=%d -> %s" % (r["k"], r["out"])] = \
+                self.simp_classes.get("k=%d -> %s" % (r["k"], r["out"]), 0) + 1
+        elif e == "SPerm":
+            self.sperm_ok += bool(r["ok"])
+            self.sperm_rejected += not r["ok"]
+        if not trivial:
+            self.nontrivial.add(h)
+
+
 def _summary(r):
     m = re.search(r'<<"SUMMARY", "cases", (\d+), "deviations", (\d+)>>', r.out)
     return (int(m.group(1)), int(m.group(2))) if m else (0, 0)
@@ -207,11 +282,112 @@ def _mc_cfg(ctx, depth):
     return out
 
 
+# ----------------------------------------------------------------------------- involutes
+def _json_summary(out):
+    m = re.search(r'<<"SUMMARY", "(.*)">>', out)
+    if not m:
+        return None
+    return json.loads(m.group(1).replace('\\"', '"'))
+
+
+def _line(path, k):
+    try:
+        with open(path) as fh:
+            for i, line in enumerate(fh, 1):
+                if i == k:
+                    return line
+    except OSError:
+        pass
+    return ""
+
+
+def _involute_case(ctx, shard, k):
+    """The input case (parameters only) behind record k of a shard's fact trace."""
+    rec = _line(ctx.path("inv%d.trace.ndjson" % shard), k)
+    try:
+        cid = json.loads(rec)["id"]
+    except (ValueError, KeyError):
+        return "record %d" % k
+    with open(ctx.path("inv%d.cases.ndjson" % shard)) as fh:
+        for line in fh:
+            c = json.loads(line)
+            if c["id"] == cid:
+                return ("case %d: Involute{{%r, %r}, %r, %r, %s, %r, %r}"
+                        % (cid, c["o"][0], c["o"][1], c["rb"], c["a"], c["sign"], c["tmin"], c["tmax"]))
+    return "case %d" % cid
+
+
+def _involute_shard(ctx, shard, seed, ncases, knobs, res):
+    """gen -> real code -> oracle facts for one shard (runs in a thread; TLC is run by the caller)."""
+    try:
+        cases = ctx.path("inv%d.cases.ndjson" % shard)
+        raw = ctx.path("inv%d.raw.ndjson" % shard)
+        trace = ctx.path("inv%d.trace.ndjson" % shard)
+        r = subprocess.run([VT_PY, ORACLE, "gen", str(seed), str(ncases), cases] + knobs,
+                           stdout=subprocess.PIPE, stderr=subprocess.PIPE, text=True, timeout=600)
+        if r.returncode != 0:
+            raise vlib.Broken("involute_oracle.py gen failed:\n" + r.stderr[-2000:])
+        vlib.run_harness("vinvolute", [cases, raw], timeout=900)
+        r = subprocess.run([VT_PY, ORACLE, "facts", cases, raw, trace],
+                           stdout=subprocess.PIPE, stderr=subprocess.PIPE, text=True, timeout=3000)
+        if r.returncode != 0:
+            raise vlib.Broken("involute_oracle.py facts failed:\n" + r.stderr[-3000:])
+        res[shard] = json.loads(r.stdout.strip().splitlines()[-1])
+    except Exception as ex:  # reported by the caller
+        res[shard] = ex
+
+
+def _involute_report(ctx, shard, r, tot, devs):
+    """Digest one InvoluteTrace run: violations, named deviations, statistics."""
+    path = ctx.path("inv%d.trace.ndjson" % shard)
+    if r.code != 0:
+        if "REJECTED" in r.out or r.violated:
+            ctx.violation("involute trace (shard %d) rejected by InvoluteTrace (Abort record / protocol):\n%s"
+                          % (shard, _rejected(r)), tags={"trace": "involute"},
+                          files=[path, ctx.path("inv%d.raw.ndjson" % shard)])
+            return
+        raise vlib.Broken("TLC failed on the involute trace %d: exit %d\n%s" % (shard, r.code, r.out[-3000:]))
+    s = _json_summary(r.out)
+    if s is None:
+        raise vlib.Broken("no SUMMARY from InvoluteTrace (shard %d):\n%s" % (shard, r.out[-2000:]))
+    for k, v in s["stat"].items():
+        tot[k] = tot.get(k, 0) + v
+    for v in s["viol"]:
+        ctx.violation("involute: clause %s violated by the real code in %d record(s), first: %s\n"
+                      "  (facts: %s line %d; inputs and the code's raw answers: inv%d.cases.ndjson / inv%d.raw.ndjson)"
+                      % (v["clause"], v["n"], _involute_case(ctx, shard, v["k"]), os.path.basename(path), v["k"],
+                         shard, shard),
+                      tags={"clause": v["clause"], "trace": "involute"},
+                      files=[path, ctx.path("inv%d.cases.ndjson" % shard), ctx.path("inv%d.raw.ndjson" % shard)])
+    for d in s["dev"]:
+        e = devs.setdefault(d["clause"], {"n": 0, "first": None, "files": []})
+        e["n"] += d["n"]
+        if e["first"] is None:
+            e["first"] = _involute_case(ctx, shard, d["k"])
+            e["files"] = [path, ctx.path("inv%d.cases.ndjson" % shard), ctx.path("inv%d.raw.ndjson" % shard)]
+
+
 def run(ctx):
-    vlib.build(["vsurf"])
+    vlib.build(["vsurf", "vinvolute"])
     q = ctx.quick
     seed = ctx.seed % 1000000007
 
+    if ctx.replay and '"e":"Inv"' in open(ctx.replay).readline().replace(" ", ""):
+        ok, r = vlib.validate_trace("InvoluteTrace", "InvoluteTrace", ctx.replay, timeout=3000)
+        sm = _json_summary(r.out) if ok else None
+        if not ok or sm is None:
+            ctx.violation("replayed involute trace rejected by InvoluteTrace:\n" + _rejected(r),
+                          tags={"trace": "replay"}, files=[ctx.replay])
+        else:
+            for v in sm["viol"]:
+                ctx.violation("replayed involute trace: clause %s violated (record %d)" % (v["clause"], v["k"]),
+                              tags={"clause": v["clause"], "trace": "replay"}, files=[ctx.replay])
+            for d in sm["dev"]:
+                ctx.violation("%d facts explained only by the named deviation %s" % (d["n"], d["clause"]),
+                              tags={"deviation": d["clause"]}, files=[ctx.replay])
+        ctx.coverage.update({"evaluations": (sm or {}).get("stat", {}).get("facts", 0), "distinct_nontrivial": 0,
+                             "rule": "replay of one involute fact trace", "samples": []})
+        return
     if ctx.replay:
         ok, r = vlib.validate_trace("SurfacesTrace", "SurfacesTrace", ctx.replay, timeout=3000)
         c, d = _summary(r)
@@ -237,6 +413,18 @@ def run(ctx):
     th = threading.Thread(target=design)
     th.start()
 
+    # ---- 5. involutes: generation, the real code and the oracle run in threads alongside
+    if q:
+        inv_shards, inv_cases, inv_knobs = 3, 44, []
+    else:
+        inv_shards, inv_cases, inv_knobs = 8, 150, ["npts=30", "nrays=36"]
+    inv_res = {}
+    inv_threads = [threading.Thread(target=_involute_shard,
+                                    args=(ctx, i, seed * 131 + i, inv_cases, inv_knobs, inv_res))
+                   for i in range(inv_shards)]
+    for t in inv_threads:
+        t.start()
+
     # ---- 2. executions of the real code
     jobs = []   # (name, argv)
     if q:
@@ -260,6 +448,10 @@ def run(ctx):
         tfc = 4
     for den in (1, 5, 13, 3, 7):
         jobs.append(("tf%d" % den, ["tf", seed + den, den, tfc]))
+    # ---- 4. matrix utilities, transform algebra, signed permutations
+    jobs.append(("mat", ["mat", seed + 17, 60 if q else 600]))
+    jobs.append(("tfx", ["tfx", seed + 19, 12 if q else 150]))
+    jobs.append(("sperm", ["sperm"]))
 
     tj = []
     for name, argv in jobs:
@@ -270,6 +462,7 @@ def run(ctx):
             argv = argv[:5] + [out] + argv[5:]
         else:
             argv = argv + [out]
+        jobs[len(tj)] = (name, argv)
         vlib.run_harness("vsurf", argv, timeout=900)
         tj.append(dict(module="SurfacesTrace", cfg="SurfacesTrace", workers=1, env={"TRACE": out},
                        timeout=3000, heap="3g"))
@@ -316,6 +509,30 @@ def run(ctx):
         ctx.violation(what, tags={"deviation": "TranslatorSimpleQuadricConstTerm"},
                       files=[sample_path] + dev_files[:2])
 
+    # ---- involutes: trace validation of the oracle's facts
+    for t in inv_threads:
+        t.join()
+    for i in range(inv_shards):
+        if isinstance(inv_res.get(i), Exception):
+            raise inv_res[i]
+    inv_runs = vlib.tlc_parallel([dict(module="InvoluteTrace", cfg="InvoluteTrace", workers=1,
+                                       env={"TRACE": ctx.path("inv%d.trace.ndjson" % i)}, timeout=3000, heap="3g")
+                                  for i in range(inv_shards)], maxpar=4)
+    inv_tot, inv_devs = {}, {}
+    for i, r in enumerate(inv_runs):
+        _involute_report(ctx, i, r, inv_tot, inv_devs)
+    for name, e in sorted(inv_devs.items()):
+        ctx.violation("%d facts explained only by the named deviation %s: %s\n  first: %s"
+                      % (e["n"], name, INV_DEVIATIONS.get(name, "(no description)"), e["first"]),
+                      tags={"deviation": name}, files=e["files"])
+    oracle_tot = {}
+    for i in range(inv_shards):
+        for k, v in inv_res[i].items():
+            if isinstance(v, (int, float)):
+                oracle_tot[k] = oracle_tot.get(k, 0) + v
+    if inv_tot.get("cases", 0) == 0 or inv_tot.get("must", 0) == 0 or inv_tot.get("flips", 0) == 0:
+        raise vlib.Broken("involute check is vacuous: %s" % inv_tot)
+
     # ---- design check result
     th.join()
     if "ex" in mc:
@@ -329,7 +546,7 @@ def run(ctx):
             raise vlib.Broken("TLC failed on SurfacesMC: exit %d\n%s" % (r.code, r.out[-3000:]))
 
     ctx.coverage.update({
-        "evaluations": cases,
+        "evaluations": cases + inv_tot.get("facts", 0),
         "distinct_nontrivial": len(cov.nontrivial),
         "distinct_tuples": len(cov.distinct),
         "rule": "one evaluation = one elementary fact decided by TLC (a sense, a normal, a ray's intersection set, "
@@ -352,11 +569,22 @@ def run(ctx):
         "simplifications_that_changed_something": cov.simplified_changed, "simplifier_sense_flips": cov.flips,
         "type_changes": cov.out_types,
         "named_deviation_hits": devs,
+        "transform_composition_classes": cov.comp_classes, "transform_simplifications": cov.simp_classes,
+        "signed_permutations_constructed": cov.sperm_ok, "signed_permutations_rejected": cov.sperm_rejected,
+        "involute": dict(inv_tot, traces=inv_shards,
+                         named_deviation_facts={k: v["n"] for k, v in inv_devs.items()},
+                         oracle=dict(oracle_tot, tolerances=inv_res[0].get("tolerances"))),
+        "oracle_decided": "involutes only: the crossing zones of every ray, the sense of the documented region, the "
+                          "numerical gradient and the bracket-parity / negative-angle / swapped-angle scoping facts "
+                          "come from tools/involute_oracle.py (independent implementation of the class "
+                          "documentation); TLC decides every clause from them",
         "exhaustive": False,
         "enumeration": "every surface of every type over the small parameter ranges of vsurf.cc exhaustive_family "
                       "(quick: every 4th, general quadrics every 400th; thorough: all, general quadrics every 20th); "
                       "points/directions/transforms seeded samples of the lattice cube, the 26+12 directions, the 48 "
-                      "signed permutations x translations, Pythagorean rotations (den 3, 5, 7, 13)",
+                      "signed permutations x translations, Pythagorean rotations (den 3, 5, 7, 13); EXHAUSTIVE: all "
+                      "216 SignedPermutation sign/axis assignments, make_permutation and make_rotation for every "
+                      "axis and quarter-turn count -8..8 / -6..9; seeded: matrices, transform pairs, involutes",
     })
     ctx.assumptions += [
         "integer parameters, lattice points and integer directions: all values (and the dyadic tan^2 of cones) are "
@@ -368,6 +596,13 @@ def run(ctx):
         "where rounding makes a degenerate case undecidable (tangent rays; rays exactly parallel to a general plane "
         "with a rounded normal; senses exactly on a surface whose stored parameters are rounded) the spec is "
         "permissive as documented in SurfacesTrace.tla",
-        "involutes (transcendental) and the accuracy of QuadraticSolver under cancellation are not covered",
+        "involutes are ORACLE-DECIDED (tools/involute_oracle.py): tolerances 1e-7 rb on-surface (10 x the solver's "
+        "documented 1e-8 rb), sense abstains within 1e-6 rb of a boundary of the region, crossings within 1e-6 of tmin / "
+        "tmax, shallow contacts (zone wider than 1e-5 rb, sin < 0.02), nearly tangent pairs inside one zone and "
+        "crossings between 0.5e-6 and 2e-6 rb from an on-surface start are optional; calc_normal is only specified on "
+        "the surface; the accuracy of QuadraticSolver under cancellation is not covered",
+        "matrix / transform algebra: integer, quarter-turn and Pythagorean inputs only (exact or within 1e-9); "
+        "TransformSimplifier with relative tolerance 1e-3; SignedPermutation is not a member of VariantTransform in "
+        "this code base and Transformation(SignedPermutation) is declared but not defined: neither is exercised",
         "SurfaceSimplifier tolerance 1e-10 through the repository's RecursiveSimplifier",
     ]
